@@ -95,9 +95,10 @@ def parse(path):
                 cur.setdefault("cut", []).append(tuple(g.encode().decode("unicode_escape") for g in mm.groups()))
                 continue
             if key == "subst":
-                mm = re.match(r'^"((?:[^"\\]|\\.)*)"\s*=>\s*"((?:[^"\\]|\\.)*)"\s*$', rest)
+                opt = rest.startswith("?")
+                mm = re.match(r'^\??\s*"((?:[^"\\]|\\.)*)"\s*=>\s*"((?:[^"\\]|\\.)*)"\s*$', rest)
                 if not mm: raise SpecError(f"{path}:{ln}: bad subst")
-                cur["subst"].append((mm.group(1).encode().decode("unicode_escape"), mm.group(2).encode().decode("unicode_escape")))
+                cur["subst"].append((mm.group(1).encode().decode("unicode_escape"), mm.group(2).encode().decode("unicode_escape"), opt))
                 continue
             mm = re.match(r"^:\s*(.*)$", rest)
             if not mm: raise SpecError(f"{path}:{ln}: missing colon")
